@@ -4,7 +4,8 @@ import HeimdallModel.Model.ProxyFwd
 
 The specification speaks about the client's request, the rule's `forward_to` configuration and what the pipeline
 produced on one side, and about what the upstream reads on the other.  It uses the vocabulary of `net/url` and of HTTP
-header maps (percent-decoding, canonical header names, the values of a name) but none of heimdall's functions.
+header maps (percent-decoding, canonical header names, the values of a name, the comma separated elements of a value)
+but none of heimdall's functions.
 
 Every clause is an executable check `Case → UpReq → Bool` guarded by an explicit applicability condition, so that the
 same definitions are (i) the statements proved about the model in `Props/C15.lean` and (ii) the oracle the check
@@ -28,21 +29,35 @@ def firstOr (vs : List Bytes) (d : Bytes) : Bytes :=
 
 /-! ## Original URL -/
 
-/-- no trusted peer asks heimdall to look at another URL than the one of the request line -/
-def plainUrl (c : Case) : Bool := believed c hXFUri = []
+/-- the URI a trusted proxy says the request was made for (`X-Forwarded-Uri`), if any -/
+def believedUri (c : Case) : Bytes := firstOr (believed c hXFUri) []
 
-def origRawPath (c : Case) : Bytes := before '?' c.req.target
-def origQuery (c : Case) : Bytes := after '?' c.req.target
-def origScheme (c : Case) : Bytes := firstOr (believed c hXFProto) b!"http"
+/-- that URI is used when its path can be decoded; otherwise the request line counts -/
+def usesForwardedUri (c : Case) : Bool :=
+  believedUri c ≠ [] && (pathUnescapeL (before '?' (believedUri c))).isSome
 
-/-- the request line is one heimdall gets to see at all -/
-def wellFormed (c : Case) : Bool := modelledTarget c.req.target && (pathUnescapeL (origRawPath c)).isSome
+/-- the original request target -/
+def origTarget (c : Case) : Bytes := if usesForwardedUri c then believedUri c else c.req.target
 
-/-- The spelling of the original path that is forwarded.  It is the client's own spelling whenever that is a valid
-encoding and the rule does not ask for decoding (`allow_encoded_slashes: on`); otherwise it is the canonical encoding
-of the decoded path. -/
+def origRawPath (c : Case) : Bytes := before '?' (origTarget c)
+
+/-- the original query: the one of the forwarded URI when that URI has one, else the one of the request line -/
+def origQuery (c : Case) : Bytes :=
+  if after '?' (origTarget c) ≠ [] then after '?' (origTarget c) else after '?' c.req.target
+
+/-- the scheme the request arrived with: what a trusted proxy says, else the listener's -/
+def origScheme (c : Case) : Bytes := firstOr (believed c hXFProto) (listenerProto c.req.tls)
+
+/-- the request is one heimdall gets to see at all, and lies in the modelled input space (origin form) -/
+def wellFormed (c : Case) : Bool :=
+  modelledTarget c.req.target && (pathUnescapeL (before '?' c.req.target)).isSome &&
+  (believedUri c = [] || modelledForwardedUri (believedUri c))
+
+/-- The spelling of the original path that is forwarded, unit by unit: every `%XX` of the client stays as written and
+every octet that may stand in a path stays; an octet that may not (`"`, `<`, `|`, non-ASCII …) is percent-encoded.  Only
+when the rule asks for decoding (`allow_encoded_slashes: on`) it is the canonical encoding of the decoded path. -/
 def seenPath (c : Case) : Bytes :=
-  if c.rule.slashes ≠ .on && validEncodedPath (origRawPath c) then origRawPath c
+  if c.rule.slashes ≠ .on then escapeInvalid (origRawPath c)
   else escapePath ((pathUnescapeL (origRawPath c)).getD [])
 
 /-- strip the configured prefix, then add the configured prefix -/
@@ -54,6 +69,7 @@ def rewrittenPath (c : Case) : Bytes :=
 def expectedPath (c : Case) : Bytes := orSlash (rewrittenPath c)
 
 def addPrefix (c : Case) : Bytes := (c.rule.rewrite.map (·.add)).getD []
+def stripPrefix (c : Case) : Bytes := (c.rule.rewrite.map (·.strip)).getD []
 
 /-- the prefix to add can be decoded -/
 def addDecodable (c : Case) : Bool := (pathUnescapeL (addPrefix c)).isSome
@@ -65,14 +81,14 @@ def addEncoded (c : Case) : Bool :=
 
 def stripNames (c : Case) : List Bytes := (c.rule.rewrite.map (·.stripQ)).getD []
 
-/-- the raw pair `name=value` carries a listed name -/
+/-- the raw piece `name=value` carries a listed name -/
 def named (names : List Bytes) (pair : Bytes) : Bool :=
   match queryUnescape (before '=' pair) with
   | some k => names.contains k
   | none => false
 
-/-- the non-empty `&`-separated pieces of a query, as written -/
-def queryPairs (q : Bytes) : List Bytes := (splitOn '&' q).filter (· ≠ [])
+/-- the pieces of the original query that stay -/
+def keptPieces (c : Case) : List Bytes := (splitOn '&' (origQuery c)).filter (fun p => !named (stripNames c) p)
 
 def expectedScheme (c : Case) : Bytes :=
   match c.rule.rewrite with
@@ -83,9 +99,12 @@ def expectedMethod (c : Case) : Bytes := firstOr (believed c hXFMethod) c.req.me
 
 /-! ## Headers -/
 
-/-- first value the pipeline produced under the canonical name `k` -/
-def pipeValue (c : Case) (k : Bytes) : Option Bytes :=
-  ((c.pipe.headers.filter fun x => canonicalKey x.1 = k).head?).map (·.2)
+/-- all values the pipeline produced under the canonical name `k`, in order -/
+def pipeValues (c : Case) (k : Bytes) : List Bytes :=
+  (c.pipe.headers.filter fun x => canonicalKey x.1 = k).map (·.2)
+
+/-- the pipeline produced at most one value under every name -/
+def pipeSingleValued (c : Case) : Bool := c.pipe.headers.all fun x => (pipeValues c (canonicalKey x.1)).length ≤ 1
 
 def priorFor (c : Case) : Bytes := commaJoin (believed c hXFFor)
 def priorForwarded (c : Case) : Bytes := commaJoin (believed c hForwarded)
@@ -94,40 +113,93 @@ def priorForwarded (c : Case) : Bytes := commaJoin (believed c hForwarded)
 def xFamily (c : Case) : Bool :=
   priorFor c ≠ [] || firstOr (believed c hXFProto) [] ≠ [] || firstOr (believed c hXFHost) [] ≠ []
 
+/-- the forwarding header heimdall continues for this request -/
+def continuedName (c : Case) : Bytes := if xFamily c then hXFFor else hForwarded
+
 /-- names heimdall itself writes after the pipeline's headers for this request -/
 def continued (c : Case) (k : Bytes) : Bool :=
   if xFamily c then k = hXFFor || k = hXFProto || k = hXFHost else k = hForwarded
 
+def expectedHost (c : Case) : Bytes := firstOr (pipeValues c hHost) c.rule.host
 
-def expectedHost (c : Case) : Bytes := firstOr ((pipeValue c hHost).toList) c.rule.host
+/-- elements of a list-valued header received so far -/
+def priorElems (prior : Bytes) : List Bytes := if prior = [] then [] else listElems prior
 
-def extend (prior elem : Bytes) : Bytes := if prior = [] then elem else prior ++ b!", " ++ elem
+/-- the address of the peer and the `Host` of the request can stand in a list-valued header as they are -/
+def addrSafe (c : Case) : Bool :=
+  (c.req.peer ++ c.req.host).all fun ch => ch ≠ ',' && ch ≠ ';' && ch ≠ ' ' && ch ≠ '\t' && ch ≠ '"'
 
-/-- header names whose lines are written by Go's HTTP client itself -/
+/-- `X-Forwarded-For` resp. `Forwarded` is extended by the peer address: one line, whose elements are the elements
+received from a trusted peer followed by one element that names the peer (`<peer>` resp. `…for=<peer>…`) -/
+def extendedByPeer (c : Case) (up : UpReq) : Bool :=
+  match values up.headers (continuedName c) with
+  | [v] =>
+    if xFamily c then listElems v = priorElems (priorFor c) ++ [c.req.peer]
+    else
+      (listElems v).dropLast = priorElems (priorForwarded c) &&
+      match (listElems v).getLast? with
+      | some e => ((splitOn ';' e).map trimOWS).contains (b!"for=" ++ c.req.peer)
+      | none => false
+  | _ => false
+
+/-- header names whose lines are written by Go's HTTP client itself from other sources -/
 def transportOwned (k : Bytes) : Bool :=
-  k = hHost || k = hUserAgent || k = hAcceptEncoding || k = b!"Content-Length" || k = b!"Transfer-Encoding" ||
-  k = b!"Trailer"
+  k = hHost || k = b!"Content-Length" || k = b!"Transfer-Encoding" || k = b!"Trailer"
+
+/-- hop-by-hop for this request (RFC 7230 6.1): the standard names and every name the client lists in `Connection` -/
+def hopByHop (c : Case) (k : Bytes) : Bool := isHop (clientHeaders c) k
+
+/-- what the client sent under `k` and is meant for the upstream: nothing for hop-by-hop and forwarding headers -/
+def endToEnd (c : Case) (k : Bytes) : List Bytes :=
+  if hopByHop c k || untrustedHeaders.contains k then [] else values (clientHeaders c) k
 
 /-- The values the upstream must read under header name `k`; `none`: this specification leaves the name alone
-(lines owned by the HTTP client library; `Cookie` when the pipeline produced cookies). -/
+(lines owned by the HTTP client library; the continued forwarding header, see `extendedByPeer`; `Cookie` when the
+pipeline produced cookies; `Te`, `Connection`, `Upgrade`, which the proxy library manages). -/
 def expectedValues (c : Case) (k : Bytes) : Option (List Bytes) :=
-  if transportOwned k then none
-  else if xFamily c && k = hXFFor then some [extend (priorFor c) c.req.peer]
-  else if xFamily c && k = hXFProto then some [firstOr (believed c hXFProto) b!"http"]
+  if transportOwned k || k = continuedName c || k = hTe || k = hConnection || k = hUpgrade then none
+  else if xFamily c && k = hXFProto then some [firstOr (believed c hXFProto) (listenerProto c.req.tls)]
   else if xFamily c && k = hXFHost then some [firstOr (believed c hXFHost) c.req.host]
-  else if !xFamily c && k = hForwarded then
-    some [extend (priorForwarded c) (forwardedElem c.req.peer c.req.host)]
   else if k = hCookie && c.pipe.cookies ≠ [] then none
-  else match pipeValue c k with
-    | some v => some [v]
-    | none => if untrustedHeaders.contains k then some [] else some (values (clientHeaders c) k)
+  else if k = hUserAgent then
+    -- written from its first value, and only if that is not empty
+    some (match (if pipeValues c k ≠ [] then pipeValues c k else endToEnd c k) with
+      | v :: _ => if v = [] then [] else [v]
+      | [] => [])
+  else if k = hAcceptEncoding then
+    -- the HTTP client adds its own line when the request does not name an encoding
+    (match (if pipeValues c k ≠ [] then pipeValues c k else endToEnd c k) with
+      | v :: rest => if v = [] then none else some (v :: rest)
+      | [] => none)
+  else if pipeValues c k ≠ [] then some (pipeValues c k)
+  else some (endToEnd c k)
 
 /-- every header name that occurs anywhere in the case or in what was observed, and the names heimdall handles -/
 def namesOf (c : Case) (up : UpReq) : List Bytes :=
   (clientHeaders c).map (·.1) ++ c.pipe.headers.map (fun x => canonicalKey x.1) ++ up.headers.map (·.1) ++
-    untrustedHeaders
+    untrustedHeaders ++ connectionNamed (clientHeaders c) ++ hopHeaders
+
+/-- `k` is a name under which the pipeline produced more than one value -/
+def repeatedPipeName (c : Case) (k : Bytes) : Bool := (pipeValues c k).length ≥ 2
+
+/-- `k` is the forwarding header heimdall continues and the pipeline produced it as well -/
+def pipeContinued (c : Case) (k : Bytes) : Bool := continued c k && pipeValues c k ≠ []
+
+def headerOK (c : Case) (up : UpReq) (k : Bytes) : Bool :=
+  match expectedValues c k with
+  | some vs => values up.headers k = vs
+  | none => true
 
 /-! ## The clauses -/
+
+def devRepeated : String := "known-deviation: every value the pipeline produced under one name is forwarded"
+def devContinued : String :=
+  "known-deviation: a header the pipeline produced under the name of the continued forwarding header is forwarded"
+def devHost : String :=
+  "known-deviation: X-Forwarded-For / Forwarded extended by the peer address whatever the Host of the request contains"
+
+/-- the clauses the implementation is known not to meet (recorded findings, `design/C15.md`) -/
+def deviations : List String := [devRepeated, devContinued, devHost]
 
 structure Clause where
   name : String
@@ -137,43 +209,58 @@ structure Clause where
   holds : Case → UpReq → Bool
 
 def clauses : List Clause := [
-  { name := "host: sent to forward_to.host, Host header from the pipeline or forward_to.host",
+  { name := "host: Host header from the pipeline or forward_to.host",
     applies := fun _ => true,
     holds := fun c up => up.host = expectedHost c },
   { name := "path: exactly the original spelling with strip_path_prefix removed and add_path_prefix added",
-    applies := fun c => plainUrl c && addEncoded c,
+    applies := fun c => addEncoded c,
     holds := fun c up => up.path = expectedPath c },
   { name := "path: decoding once what is sent gives the decoded rewritten path (no double encoding)",
-    applies := fun c => plainUrl c && addDecodable c,
+    applies := fun c => addDecodable c,
     holds := fun c up => pathUnescapeL up.path = pathUnescapeL (expectedPath c) && (pathUnescapeL up.path).isSome },
+  { name := "path: an encoded slash of the original path stays encoded unless the rule says on",
+    applies := fun c => addEncoded c && c.rule.slashes ≠ .on && stripPrefix c = [] && containsEncodedSlashL (origRawPath c),
+    holds := fun _ up => containsEncodedSlashL up.path },
   { name := "query: untouched without strip_query_parameters",
-    applies := fun c => plainUrl c && stripNames c = [],
+    applies := fun c => stripNames c = [],
     holds := fun c up => up.query = origQuery c },
-  { name := "query: exactly the listed parameters removed, everything else as written and in order",
-    applies := fun c => plainUrl c,
-    holds := fun c up => queryPairs up.query = (queryPairs (origQuery c)).filter (fun p => !named (stripNames c) p) },
+  { name := "query: exactly the listed parameters removed, every other piece as written and in order",
+    applies := fun _ => true,
+    holds := fun c up => if keptPieces c = [] then up.query = [] else splitOn '&' up.query = keptPieces c },
   { name := "query: no listed parameter reaches the upstream in any spelling, the others keep values and order (as url.ParseQuery reads them)",
-    applies := fun c => plainUrl c,
+    applies := fun _ => true,
     holds := fun c up => parseQueryPairs up.query =
       (parseQueryPairs (origQuery c)).filter (fun kv => !(stripNames c).contains kv.1) },
   { name := "method and body untouched",
     applies := fun _ => true,
     holds := fun c up => up.method = expectedMethod c && up.body = c.req.body },
-  { name := "headers: pipeline wins, X-Forwarded-Method/-Uri/-Path not passed, X-Forwarded-For/Forwarded extended, rest as sent",
+  { name := "headers: X-Forwarded-For / Forwarded extended by the peer address",
+    applies := fun c => addrSafe c,
+    holds := fun c up => extendedByPeer c up },
+  { name := "headers: pipeline wins, X-Forwarded-Method/-Uri/-Path and hop-by-hop headers not passed, rest as sent",
     applies := fun _ => true,
-    holds := fun c up => (namesOf c up).all fun k =>
-      match expectedValues c k with
-      | some vs => values up.headers k = vs
-      | none => true }]
+    holds := fun c up => (namesOf c up).all fun k => repeatedPipeName c k || pipeContinued c k || headerOK c up k },
+  { name := devRepeated,
+    applies := fun _ => true,
+    holds := fun c up => (namesOf c up).all fun k => !repeatedPipeName c k || pipeContinued c k || headerOK c up k },
+  { name := devContinued,
+    applies := fun _ => true,
+    holds := fun c up => (namesOf c up).all fun k => !pipeContinued c k || values up.headers k = pipeValues c k },
+  { name := devHost,
+    applies := fun c => !addrSafe c,
+    holds := fun c up => extendedByPeer c up }]
+
+/-- the pipeline did not produce a header under the name of a forwarding header heimdall continues -/
+def pipeAvoidsContinued (c : Case) : Bool := untrustedHeaders.all fun k => !pipeContinued c k
 
 /-- requests that must reach the upstream -/
 def mustForward (c : Case) : Bool :=
-  wellFormed c && plainUrl c && !(c.rule.slashes = .off && containsEncodedSlashL (seenPath c)) &&
+  wellFormed c && !(c.rule.slashes = .off && containsEncodedSlashL (origRawPath c)) &&
   (expectedScheme c = b!"http" || expectedScheme c = b!"https")
 
 /-- requests that must be refused because of an encoded slash -/
 def mustRefuse (c : Case) : Bool :=
-  wellFormed c && plainUrl c && c.rule.slashes = .off && containsEncodedSlashL (seenPath c)
+  wellFormed c && c.rule.slashes = .off && containsEncodedSlashL (origRawPath c)
 
 /-- names of the clauses the outcome violates -/
 def violations (c : Case) : Outcome → List String
@@ -184,7 +271,7 @@ def violations (c : Case) : Outcome → List String
   | .forwarded tls dial up =>
     (if mustRefuse c then ["refused: an encoded slash is answered with 400 when the rule says off"] else []) ++
     (if dial ≠ c.rule.host then ["host: sent to forward_to.host"] else []) ++
-    (if tls ≠ (expectedScheme c = b!"https") then ["scheme: original scheme unless rewritten"] else []) ++
+    (if tls != decide (expectedScheme c = b!"https") then ["scheme: original scheme unless rewritten"] else []) ++
     (clauses.filter fun cl => cl.applies c && !cl.holds c up).map (·.name)
 
 /-- names of the clauses that say something about this case (for the evidence) -/
